@@ -23,13 +23,14 @@ FORBIDDEN = re.compile(r"\bsorry\b|\badmit\b|^\s*(private\s+|protected\s+)?axiom
 TRUSTED_BASE = [
     "Lean 4.33.0 kernel; every cited name must be a theorem with axioms within {propext, Classical.choice, Quot.sound} (audited per run); forbidden-construct grep; "
     "thorough tier: leanchecker replays every SCoda module the property's modules import",
-    "the translators tools/py2lean*.py (wrap, view, elem, rel2, static, tok, abs2, util, heap, heap2, sort) and tools/gen_lean.py — everything under lean/SCoda/Gen is regenerated from "
+    "the translators tools/py2lean*.py (wrap, view, elem, rel2, static, tok, abs2, util, heap, heap2, heap3, sort) and tools/gen_lean.py — everything under lean/SCoda/Gen is regenerated from "
     "/repo on every run; their conventions (a sequence object is its message list or a list of references into a heap of message objects; None = -1; int unbounded; "
     "a float is an exact rational, IEEE rounding not modelled; dicts as insertion-ordered association lists; iterators run to their end; proved fuel for while loops; "
     "logger calls dropped; exception classes the properties never distinguish share a constructor)",
-    "tools/conventions.py + tools/conventions_baseline.json: special methods, class-level and module-level statements, settings imports and linked bodies of the source "
-    "are fingerprinted and compared with the recorded baseline on every run (what the translators do not translate); trusted: that the baseline source means what "
-    "the link tables say",
+    "tools/conventions.py + tools/conventions_baseline.json: special methods, class-level and module-level statements, every import, every signature with its default "
+    "expressions, the bodies of linked and of untranslated methods, shadowing of imported modules and the settings values are fingerprinted and compared with the recorded "
+    "baseline on every run (what the translators do not translate); harness/livecode.py: every function live in the imported package equals the one compiled from the source "
+    "text (no import-time rebinding); trusted: that the baseline source means what the link tables say",
     "link tables Model/ViewLib, ElemLib, StaticLib, TokLib, TokLib2, UtilLib, SortLib, MidoCodec, HeapLib, HeapLib2 (hand-written Lean for Python called by name or for "
     "Python language features; most entries are proved equal to their translation: DESIGN 9.2e lists the exceptions: CPython's list.sort being a stable comparison sort, mido_open, "
     "int(str)/split/zfill, set/sorted on ints, numpy.digitize, the five view-level identity links of HeapLib); effects of a callee on its non-receiver arguments are dropped; "
@@ -118,7 +119,8 @@ LINK_PROOFS = {
     "SCoda.Model.StaticLib": ["SCoda.Props.StaticLink", "SCoda.Props.ViewTie", "SCoda.Props.WrapTie"],
     "SCoda.Model.TokLib": ["SCoda.Props.UtilTie", "SCoda.Props.AbsTie2", "SCoda.Props.RelTie2", "SCoda.Props.ViewTie", "SCoda.Props.SortTie"],
     "SCoda.Model.Wrapper": ["SCoda.Props.WrapTie"],
-    "SCoda.Model.HeapLib": ["SCoda.Props.HeapTie", "SCoda.Props.HeapTie2"],
+    "SCoda.Model.HeapLib": ["SCoda.Props.HeapTie", "SCoda.Props.HeapTie2", "SCoda.Props.HeapTie3", "SCoda.Props.HeapTieB"],
+    "SCoda.Model.TokLib3": ["SCoda.Props.TokTie3", "SCoda.Props.UtilTie"],
 }
 
 
